@@ -1,0 +1,11 @@
+//go:build !verif
+
+package dastard
+
+// verifAcc marks an access (read or write) to a piece of state that is shared between goroutines,
+// and verifSync marks a synchronisation operation (channel send/receive/close, lock/unlock,
+// wait-group add/done/wait, go statement / goroutine start), for the out-of-tree verification
+// harness.  In the normal build both are empty functions that the compiler inlines away.
+func verifAcc(string, interface{}, bool) {}
+
+func verifSync(string, string, interface{}) {}
